@@ -4,4 +4,4 @@ set -e
 HERE="$(cd "$(dirname "$0")" && pwd)"
 cd "$HERE/coq"
 timeout 600 coq_makefile -f _CoqProject -o Makefile
-timeout 3000 make -j16
+timeout 3000 make -k -j16 || echo "setup: some targets failed to build (each check rebuilds its own targets and reports)"
